@@ -16,8 +16,9 @@ ASSUMPTIONS = [
 ]
 
 SOURCE = (b'#diffx: encoding=utf-8, version=1.0\n#.preamble: indent=2, length=5, line_endings=unix\n  hi\n'
-          b'#.meta: format=json, length=9\n{"a": 1}\n#.change:\n#..meta: format=json, length=9\n{"c": 2}\n#..file:\n'
-          b'#...meta: format=json, length=14\n{"path": "x"}\n#...diff: length=26, line_endings=unix\n@@ -1 +1 @@\n-a\n+b\n z\n\n')
+          b'#.meta: format=json, length=9\n{"a": 1}\n#.change:\n#..meta: length=9\n{"c": 2}\n#..file:\n'
+          b'#...meta: format=json, length=14\n{"path": "x"}\n#...diff: length=26\n@@ -1 +1 @@\n-a\n+b\n z\n\n')
+# (some content headers carry nothing but their length, so that option-less sections exist after parsing)
 
 
 def _sections(t):
